@@ -273,6 +273,8 @@ def run(ctx):
     # R7.11: no behaviour changes at a number fixed in the source (sizes, depths, counts, magnitudes are unbounded in the property's domain)
     from . import scope as _scope
     _scope.rule_no_size_thresholds(ctx, 'R7.11', ('validators', '_utils'), 'the resolver, its store and the dispatcher')
+    # R7.14: nothing is remembered under the address of an object of an earlier call
+    _scope.rule_no_address_keys(ctx, 'R7.14', ('validators', '_validators', '_legacy_validators', '_utils', '_types', '_format'), 'the dispatcher, the resolver, the keyword functions and the checkers')
     # R7.12: what a resolver is made of is its own and live: the handler table a caller edits is the one retrieval consults (toggling a handler)
     from .c18 import rule_per_validator_resolver
     rule_per_validator_resolver(ctx, "R7.12")
